@@ -48,6 +48,7 @@ func (f *failWriter) Write(p []byte) (int, error) {
 }
 
 type resHandle struct {
+	dir       string // the private temp directory of the buffer this handle's Close must release
 	dead      *bool // shared between a builder and the records built from it: their buffer has been closed
 	closer    io.Closer
 	rec       gowarc.WarcRecord
@@ -91,9 +92,26 @@ func kRes(args []string) (string, string) {
 	var outs []string
 	var model []string
 	baseFds := countFds(tmp)
+	countFiles := func(d string) int {
+		n := 0
+		_ = filepath.Walk(d, func(_ string, fi os.FileInfo, err error) error {
+			if err == nil && !fi.IsDir() {
+				n++
+			}
+			return nil
+		})
+		return n
+	}
 	measure := func() string {
-		ents, _ := os.ReadDir(spill)
-		return fmt.Sprintf("%d/%d", len(ents), countFds(tmp)-baseFds)
+		return fmt.Sprintf("%d/%d", countFiles(spill), countFds(tmp)-baseFds)
+	}
+	leak := ""
+	nsub := 0
+	subdir := func() string {
+		nsub++
+		d := filepath.Join(spill, fmt.Sprintf("b%d", nsub))
+		_ = os.Mkdir(d, 0o755)
+		return d
 	}
 	get := func(s string) *resHandle {
 		i, err := strconv.Atoi(s)
@@ -102,8 +120,8 @@ func kRes(args []string) (string, string) {
 		}
 		return handles[i]
 	}
-	recOpts := func(mem int, pol int) []gowarc.WarcRecordOption {
-		return gowarc.VerifOptions(pol, pol, pol, pol, gowarc.WithBufferTmpDir(spill), gowarc.WithBufferMaxMemBytes(int64(mem)))
+	recOpts := func(mem int, pol int, d string) []gowarc.WarcRecordOption {
+		return gowarc.VerifOptions(pol, pol, pol, pol, gowarc.WithBufferTmpDir(d), gowarc.WithBufferMaxMemBytes(int64(mem)))
 	}
 	for _, op := range strings.Split(args[0], ";") {
 		f := strings.Split(op, ":")
@@ -120,7 +138,8 @@ func kRes(args []string) (string, string) {
 			case "wf":
 				rt, ct = gowarc.Metadata, "application/warc-fields"
 			}
-			rb := gowarc.NewRecordBuilder(rt, recOpts(mem, pol)...)
+			bdir := subdir()
+			rb := gowarc.NewRecordBuilder(rt, recOpts(mem, pol, bdir)...)
 			rb.AddWarcHeader("Content-Type", ct)
 			rb.AddWarcHeader("WARC-Date", "2020-01-01T00:00:00Z")
 			if f[3] != "bad" {
@@ -135,7 +154,7 @@ func kRes(args []string) (string, string) {
 			} else {
 				m = fmt.Sprintf("nb:%d:0", mem)
 			}
-			handles = append(handles, &resHandle{closer: rb, bld: rb, dead: new(bool)})
+			handles = append(handles, &resHandle{closer: rb, bld: rb, dead: new(bool), dir: bdir})
 		case "w", "rf": // w:<h>:<n>
 			h := get(f[1])
 			n, _ := strconv.Atoi(f[2])
@@ -156,7 +175,7 @@ func kRes(args []string) (string, string) {
 			}
 			rec, _, berr := h.bld.Build()
 			if rec != nil {
-				hd := &resHandle{closer: rec, rec: rec, hasCloser: true, dead: h.dead}
+				hd := &resHandle{closer: rec, rec: rec, hasCloser: true, dead: h.dead, dir: h.dir}
 				if berr != nil {
 					hd.rec = nil
 				}
@@ -173,12 +192,13 @@ func kRes(args []string) (string, string) {
 			if cut >= 0 && cut < len(data) {
 				s = &gowarc.VerifStream{Data: data[:cut], Fault: true}
 			}
-			rec, _, _, uerr := gowarc.NewUnmarshaler(recOpts(mem, pol)...).Unmarshal(bufio.NewReaderSize(s, 32))
+			udir := subdir()
+			rec, _, _, uerr := gowarc.NewUnmarshaler(recOpts(mem, pol, udir)...).Unmarshal(bufio.NewReaderSize(s, 32))
 			if rec == nil {
 				m = "umn"
 				break
 			}
-			hd := &resHandle{closer: rec, rec: rec, hasCloser: true}
+			hd := &resHandle{closer: rec, rec: rec, hasCloser: true, dir: udir}
 			if uerr != nil {
 				// a record handed back together with an error must be closed, but is not used any further
 				hd.rec = nil
@@ -259,6 +279,12 @@ func kRes(args []string) (string, string) {
 			if h.dead != nil {
 				*h.dead = true
 			}
+			// Close on a builder or a record releases the temp file created on its behalf, whoever else still refers to it
+			if h.dir != "" && leak == "" {
+				if n := countFiles(h.dir); n != 0 {
+					leak = fmt.Sprintf("VIOL c15-leak after_Close_on_handle_%s_%d_temp_file(s)_remain_ops=%s", f[1], n, sanitize(args[0]))
+				}
+			}
 			m = "c:" + f[1]
 		}
 		model = append(model, m)
@@ -271,7 +297,9 @@ func kRes(args []string) (string, string) {
 	final := measure()
 	outs = append(outs, final)
 	oracle := "ok"
-	if final != "0/0" {
+	if leak != "" {
+		oracle = leak
+	} else if final != "0/0" {
 		oracle = "VIOL c15-leak after_closing_everything_files/fds=" + final + "_ops=" + sanitize(args[0])
 	}
 	impl := strings.Join(outs, ";")
